@@ -29,6 +29,7 @@ import (
 	"strings"
 	"time"
 
+	"github.com/smallstep/linkedca"
 	"go.step.sm/crypto/jose"
 	"go.step.sm/crypto/randutil"
 	"golang.org/x/crypto/ssh"
@@ -129,6 +130,12 @@ func newEnv() (*env, error) {
 	e.hostCert, e.hostKey, err = e.newHostCert()
 	if err != nil {
 		return nil, err
+	}
+	// a few more administrators, so that listings have an inside and cursors have something to point at
+	if jp, err := ca.Auth.LoadProvisionerByName("jwk"); err == nil {
+		for _, sub := range []string{"ops-a", "ops-b", "ops-c"} {
+			_ = ca.Auth.StoreAdmin(context.Background(), &linkedca.Admin{ProvisionerId: jp.GetID(), Subject: sub, Type: linkedca.Admin_ADMIN}, jp)
+		}
 	}
 	return e, nil
 }
@@ -446,6 +453,24 @@ var gens = map[string]gen{
 		_ = crt.SignCert(rand.Reader, signer)
 		useKey := key
 		mut := "crafted"
+		if r.Chance(1, 3) && e.ca.SSHHost != nil {
+			// a certificate under the CA's own host key (as a former configuration, a template with operator-chosen
+			// validity, or another CA sharing the key would have issued): accepted by the SSH-POP provisioner, with
+			// validity spans around every bound the renew / rekey arithmetic has (seconds → nanoseconds → int64)
+			if caSigner, err := ssh.NewSignerFromKey(e.ca.SSHHost); err == nil {
+				now := uint64(time.Now().Unix())
+				span := c.Pick(r, []uint64{1, 60, 3600, 1 << 31, 1 << 32, 9223372035, 9223372036, 9223372037, 10000000000, 1 << 34, 18446744073, 18446744074,
+					1 << 40, 1 << 62, 1<<63 - now, math.MaxInt64, 1 << 63, math.MaxUint64 - now - 1})
+				crt = &ssh.Certificate{Key: signer.PublicKey(), Serial: r.U64(), CertType: ssh.HostCert, KeyId: "h2.verif.test", ValidPrincipals: []string{"h2.verif.test"},
+					ValidAfter: now - 60, ValidBefore: now - 60 + span}
+				if r.Chance(1, 6) {
+					crt.ValidAfter, crt.ValidBefore = 0, c.Pick(r, []uint64{now + span, ssh.CertTimeInfinity})
+				}
+				if crt.SignCert(rand.Reader, caSigner) == nil {
+					mut = "ca-signed"
+				}
+			}
+		}
 		if r.Chance(1, 3) {
 			if hc, hk, err := e.newHostCert(); err == nil {
 				crt, useKey, mut = hc, hk, "genuine"
@@ -511,6 +536,28 @@ var gens = map[string]gen{
 			{"GET", "/admin/policy"}, {"DELETE", "/admin/policy"}, {"POST", "/admin/provisioners/jwk/policy"}, {"GET", "/admin/acme/eab/acme"}, {"POST", "/admin/acme/eab/acme"},
 			{"GET", "/admin/provisioners/" + pickS(r)}, {"POST", "/admin/provisioners/jwk/webhooks"}})
 		path := strings.ReplaceAll(strings.ReplaceAll(p.path, " ", "%20"), "\x00", "%00")
+		if p.method == "GET" && (p.path == "/admin/admins" || p.path == "/admin/provisioners" || p.path == "/admin/acme/eab/acme") && r.Chance(3, 4) {
+			// listings: a cursor inside the list (or anywhere else) with page sizes around every integer bound
+			var provIDs []string
+			if ps, _, err := e.ca.Auth.GetProvisioners("", 20); err == nil {
+				for _, x := range ps {
+					provIDs = append(provIDs, x.GetID())
+				}
+			}
+			cur := ident(adminIDs...)
+			if p.path == "/admin/provisioners" {
+				cur = ident(provIDs...)
+			}
+			q := url.Values{}
+			if r.Chance(4, 5) {
+				q.Set("cursor", cur)
+			}
+			if r.Chance(4, 5) {
+				q.Set("limit", c.Pick(r, []string{"0", "-1", "1", "2", "100", "101", "2147483647", "2147483648", "9223372036854775806", "9223372036854775807", "9223372036854775808",
+					"-9223372036854775808", "18446744073709551615", "1e3", "", "abc", "0x10"}))
+			}
+			path += "?" + q.Encode()
+		}
 		var body []byte
 		if p.method != "GET" && p.method != "DELETE" {
 			pol := map[string]any{"x509": map[string]any{"allow": map[string]any{"dns": []string{pickS(r)}, "emails": []string{pickS(r)}, "ips": []string{pickS(r)}, "uris": []string{pickS(r)}, "commonNames": []string{pickS(r)}},
